@@ -126,6 +126,56 @@ def run(ctx):
              'the heartbeat is not written to exactly the action execution '
              'whose id was reported', ctx.loc(uh))
 
+    # ---- R6 every running action gets its heartbeat ------------------------------
+    r6 = ctx.rule('R6', 'the sender reports every running action on every '
+                  'pass (no truncation / sampling of the id set)',
+                  'dataflow')
+    HS = 'mistral.services.action_heartbeat_sender'
+    sf = prog.func(HS + '.send_action_heartbeats')
+    scfg = ctx.cfg(sf)
+    snd = [(n, c) for n, c in scfg.calls(
+        lambda c: U.call_name(c) == 'process_action_heartbeats')]
+    if len(snd) != 1:
+        raise AnalysisError('C20.R6: heartbeat send lost')
+    n, c = snd[0]
+    # every definition of the value that is sent, back to the running set:
+    # only copies (list / set / tuple / sorted), no slicing, filtering or
+    # sampling
+    bad = []
+    seen_set = False
+    todo = [c.args[0]] if c.args else []
+    visited = set()
+    while todo:
+        e = todo.pop()
+        if isinstance(e, ast.Name):
+            if e.id == '_running_actions':
+                seen_set = True
+                continue
+            if e.id in visited:
+                continue
+            visited.add(e.id)
+            defs_ = [x.value for x in own_nodes(sf.node)
+                     if isinstance(x, ast.Assign) and
+                     any(isinstance(t_, ast.Name) and t_.id == e.id
+                         for t_ in x.targets)]
+            if not defs_:
+                bad.append(norm(e))
+            todo += defs_
+        elif isinstance(e, ast.Call) and isinstance(e.func, ast.Name) and \
+                e.func.id in ('list', 'set', 'tuple', 'sorted',
+                              'frozenset') and len(e.args) == 1:
+            todo.append(e.args[0])
+        else:
+            bad.append(norm(e, 60))
+    facts = [(norm(a), t) for a, t in U.guard_atoms(scfg, n)]
+    r6.check(seen_set and not bad and
+             facts in ([('_running_actions', True)], []),
+             ctx.construct(sf, c, extra='all running actions'),
+             'the ids sent are not the whole set of running actions (%s; '
+             'conditions %s): actions left out get no heartbeat and are '
+             'expired although their executor is alive'
+             % (bad[:2], facts), ctx.loc(sf, c))
+
     # ---- R5 the checker thread survives a failing pass -------------------------
     r5 = ctx.rule('R5', 'a failing pass does not end the heartbeat checker '
                   'thread', 'GD (handlers)')
